@@ -184,6 +184,7 @@ func checkC04(c *Ctx) {
 	c04Imports(c)
 	c04Extras(c, src)
 	c04Handover(c)
+	c04Copied(c)
 	// listing helper + accessor, once per node type that occurs
 	pts := &ndjson{}
 	seenType := map[string]bool{}
@@ -614,6 +615,44 @@ func c04ExtrasOn(c *Ctx, name string, src []byte) {
 // c04Handover: the decorations of a point are handed to the same point of another node by assignment
 // (the documented way of moving them), the point they came from is cleared and filled again. What was
 // handed over is still rendered at its new node, the new text at the old one, nothing twice.
+// c04Copied: decorations COPIED to another node through the list operations (Prepend / Append / Replace
+// with the other list's elements as arguments); an element of the source list is then overwritten in
+// place. The copy is the other node's own storage: it still renders what was copied.
+func c04Copied(c *Ctx) {
+	src := "package p\n\nfunc a() {} // one\n\nfunc b() {}\n\nfunc d() {}\n"
+	ops := map[string]func(dst, from *dst.Decorations){
+		"Prepend": func(d, from *dst.Decorations) { d.Prepend(from.All()...) },
+		"Append":  func(d, from *dst.Decorations) { d.Append(from.All()...) },
+		"Replace": func(d, from *dst.Decorations) { d.Replace(from.All()...) },
+	}
+	for name, op := range ops {
+		for _, target := range []string{"Start", "End"} {
+			f, err := decorator.Parse(src)
+			if err != nil {
+				c.Infra("copied-decorations source does not parse")
+				return
+			}
+			from := &f.Decls[0].Decorations().End
+			to := &f.Decls[1].Decorations().Start
+			if target == "End" {
+				to = &f.Decls[1].Decorations().End
+			}
+			op(to, from)
+			key := "copied|" + name + "|" + target
+			c.Eval(key, true)
+			(*from)[0] = "// uno"
+			out, perr := printFile(f)
+			if perr != "" {
+				c.Fail(Finding{Sig: "handover-print-fails", Input: key, What: perr, Replay: obj{"kind": "none"}})
+				continue
+			}
+			if len(to.All()) != 1 || to.All()[0] != "// one" || strings.Count(out, "// one") != 1 || strings.Count(out, "// uno") != 1 {
+				c.Fail(Finding{Sig: "copied-decorations-change", Input: key, What: fmt.Sprintf("after %s of another node's list and an in-place write to that list, the copy holds %q and the file prints\n%s", name, to.All(), out), Replay: obj{"kind": "none"}})
+			}
+		}
+	}
+}
+
 func c04Handover(c *Ctx) {
 	src := "package p\n\n// Old does things.\n// It is documented on three lines\n// so that the list has spare capacity.\nfunc Old() {} // old trail\n\nfunc New() {}\n\n// V is a variable.\nvar V = 1 // v trail\n\nvar W = 2\n"
 	refill := map[string]func(d *dst.Decorations){
